@@ -4,7 +4,8 @@
                         acknowledgements, independent of the model: own decode of
                         the feedback (chunks expanded to per-offset status, deltas
                         accumulated) + own send history. *)
-From IV Require Import Base.Word Base.F64 Model.Ntp Model.FbAdapter.
+From IV Require Import Base.Word Base.F64 Model.Ntp.
+From IV Require Export Model.FbAdapter.
 From Coq Require Import ZifyBool.
 Ltac Zify.zify_post_hook ::= Z.div_mod_to_equations.
 
@@ -15,7 +16,7 @@ Definition reft (ts : Z) : Z := ToTime (ts * 65536) + EPOCH.
 
 (* ---- compact case syntax ---- *)
 Inductive cop :=
-| O (o : op)
+| Op (o : op)
 | SentRun (extid ssrc seq0 twcc0 hsize size dep0 ddep n : Z).
 
 Fixpoint sent_run (extid ssrc seq0 twcc0 hsize size dep0 ddep : Z) (i : Z) (n : nat) : list op :=
@@ -27,7 +28,7 @@ Fixpoint sent_run (extid ssrc seq0 twcc0 hsize size dep0 ddep : Z) (i : Z) (n : 
 
 Definition expand (c : cop) : list op :=
   match c with
-  | O o => [o]
+  | Op o => [o]
   | SentRun extid ssrc seq0 twcc0 hsize size dep0 ddep n =>
       sent_run extid ssrc seq0 twcc0 hsize size dep0 ddep 0 (Z.to_nat n)
   end.
@@ -140,13 +141,13 @@ Fixpoint classify (H : list ack) (seq k count : Z) (syms : list Z) (arrs : list 
             | [] => [6%nat]
             end
         end
-      else match acks with [] => [] | _ => [13%nat] end
-  | _, _ =>
-      if k <? count then [90%nat]
       else match acks with
            | [] => []
-           | a :: _ => if is_zero_ack a then [13%nat] else [3%nat]
+           | _ => if Nat.eqb (length acks) (length syms) then [13%nat] else [3%nat]
            end
+  | _, _ =>
+      if k <? count then [90%nat]
+      else match acks with [] => [] | _ => [3%nat] end
   end.
 
 (* a run-length chunk of delta-carrying symbols that extends beyond the status count *)
